@@ -224,7 +224,7 @@ Print Assumptions C19_premises_needed.
 
 (** * C19 — "a member that joins later learns all active actors", while the
     membership change is still spreading *)
-From HV Require JoinSpread JoinSpreadProofs.
+From HV Require JoinSpread StaggerExec JoinSpreadProofs.
 
 (* Model JoinSpread.v: m old members, a joiner, any list of operations — the new
    member list reaches the agents in any order and grouping (Tell), old members
@@ -252,3 +252,15 @@ Theorem C19_join_that_spreads_views :
     forall v, In v (JoinSpread.views m nk (fst (JoinSpread.run m JoinSpread.init ops))) -> nth_error v k = Some (S h).
 Proof. exact JoinSpreadProofs.join_spread_views. Qed.
 Print Assumptions C19_join_that_spreads_views.
+
+(* the predicate part [stagger] evaluates on the implementation's observations (every member's final
+   GetActiveByID view = the PIDs the activations returned) is true of every model run in which every
+   old member has been told — so a failure of it on the implementation is a failure of the property,
+   not of the oracle *)
+Theorem C19_stagger_oracle_holds_of_model :
+  forall (m nk : nat) (ops : list JoinSpread.op),
+    0 < m -> JoinSpread.all_told m (fst (JoinSpread.run m JoinSpread.init ops)) = true ->
+    StaggerExec.oracle (StaggerExec.model_case m nk ops) = true /\
+    StaggerExec.corr (StaggerExec.model_case m nk ops) = true.
+Proof. intros m nk ops Hm Hall. split; [exact (JoinSpreadProofs.stagger_oracle_sound m nk ops Hm Hall)|exact (JoinSpreadProofs.stagger_corr_refl m nk ops)]. Qed.
+Print Assumptions C19_stagger_oracle_holds_of_model.
